@@ -369,7 +369,16 @@ inline bool curved_request_within_capacity(const GridSpec &sp, TypeDepth type, c
 inline std::string lim_text(const std::vector<int> &l) { return l.empty() ? std::string("") : " limits=[" + join(l) + "]"; }
 
 // Executes one op if it is legal in the current state (legality = the documented preconditions); returns whether it ran.
+inline bool apply_op_impl(GridState &st, const Op &op);
+// Rules with a finite table (gauss-patterson: 9 hard-coded levels; custom-tabulated): any operation that needs a level beyond the table is rejected by the library with the
+// documented runtime_error ("... rule needed with level(s) N, but only M are hardcoded / provided"). Refinement, update, candidate requests and deliveries can all run into it;
+// the case ends there (Discard), whatever the operation.
 inline bool apply_op(GridState &st, const Op &op) {
+    if (!(st.spec.family == F_GLOBAL && (st.spec.rule == rule_gausspatterson || st.spec.custom))) return apply_op_impl(st, op);
+    try { return apply_op_impl(st, op); }
+    catch (std::runtime_error &e) { std::string m = e.what(); if (m.find("rule needed with level") != std::string::npos && m.find(", but only ") != std::string::npos) throw Discard("beyond the rule table: " + m); throw; }
+}
+inline bool apply_op_impl(GridState &st, const Op &op) {
     auto &g = st.g; const int outs = st.spec.outs, dims = st.spec.dims;
     if (g.empty()) return false;
     if (st.removed && !(op.kind == OP_ROUNDTRIP || op.kind == OP_COPY)) return false;   // documented: only evaluation / I-O after removal
